@@ -14,7 +14,8 @@ entitled", answer independent of history), without the Lean model.
 """
 import os
 
-THEOREMS = ["IstioModel.C11.Theorems", "IstioModel.C11.ParseTheorems", "IstioModel.C11.SdsTheorems", "IstioModel.C11.RefsTheorems"]
+THEOREMS = ["IstioModel.C11.Theorems", "IstioModel.C11.ParseTheorems", "IstioModel.C11.SdsTheorems", "IstioModel.C11.RefsTheorems",
+            "IstioModel.C11.AuthCacheTheorems"]
 STREAMS = ("auth", "stream", "parse", "refs", "sds")
 
 
@@ -59,6 +60,35 @@ def oracle(ctx, stream, case_lines, rep, wide=True):
     return None
 
 
+def _go_build_retry(ctx, attempts=4):
+    """go build with retries when the failure is infrastructure (shared Go build cache trimmed under us, disk full):
+    such a failure says nothing about /repo and must not become a VIOLATION line."""
+    import time
+    for k in range(attempts):
+        n = len(ctx.violations)
+        if ctx.go_build():
+            return True
+        infra = False
+        for v in ctx.violations[n:]:
+            try:
+                txt = open(v["path"]).read()
+            except OSError:
+                txt = ""
+            if ".cache/go-build" in txt or "no space left on device" in txt or "cannot find package" in txt and "go-build" in txt:
+                infra = True
+        if not infra or k == attempts - 1:
+            return False
+        for v in ctx.violations[n:]:
+            try:
+                os.remove(v["path"])
+            except OSError:
+                pass
+        del ctx.violations[n:]
+        ctx.log("go build failed for infrastructure reasons (build cache / disk); retry %d" % (k + 1))
+        time.sleep(5 * (k + 1))
+    return False
+
+
 def run(ctx):
     ctx.rule = ("cases = (auth) 1-6 ops: ParseIdentity / checkConnectionIdentity / authenticate / initProxyMetadata+authorize on "
                 "claimed node ids, metadata namespace/service account and credential lists (well-formed, malformed, multi, empty, nil); "
@@ -78,8 +108,17 @@ def run(ctx):
         "the trust domain of a credential is never compared by checkConnectionIdentity (theorem trust_domain_not_compared): a credential of any "
         "trust domain the authenticators accept binds by namespace/service account alone; which trust domains can authenticate is an input",
         "other surfaces gated only by VerifiedIdentity != nil are outside this check: debug xDS (debuggen.go: syncz/config_dump of other proxies for "
-        "any verified non-system namespace), status generator (statusgen.go), ECDS wasm pull secrets (ecds.go) and the API generator (apigen.go)",
-        "CredentialsController.authorizationCache (per-user result cache, 1-5 min) is not modelled; sound for an RBAC outcome that is constant during a case",
+        "any verified non-system namespace), status generator (statusgen.go), ECDS wasm pull secrets (ecds.go), the API generator (apigen.go) and "
+        "WorkloadEntry auto-registration (autoregistration/controller.go:277, a write surface)",
+        "CredentialsController.authorizationCache is modelled (authorizeCached, clock through the verif hook VerifC11AgeAuthorizationCache): a verdict "
+        "may be served for less than its TTL (60 s refusal / 300 s success) after the RBAC outcome changed - the property's 'authorised to read' holds "
+        "up to that bounded staleness (authorize_bounded_staleness, revocation_effective_within_ttl)",
+        "ListenerSet children: a Gateway config whose parents annotation starts with 'ListenerSet/' is trusted to name secrets of its OWN namespace for "
+        "gateway proxies of the parent-namespace annotation, without a ReferenceGrant (refs_listenerset_config_namespace). This is sound under the "
+        "AllowedListeners handshake: gateway_collection.go emits such configs only after gatewaycommon.NamespaceAcceptedByAllowListeners (driven in the "
+        "refs stream, model nsAccepted) holds for the ListenerSet's namespace; the emission wiring itself and hand-written networking.istio.io Gateways "
+        "carrying internal.istio.io/* annotations (not stripped anywhere; they expose only their author's own namespace) are assumed, not tied",
+        "the service-account half of identity_binding is conditional on SERVICE_ACCOUNT metadata being sent: a client that omits it is bound by namespace only",
         "the namespace comparison of checkConnectionIdentity is skipped when the proxy claims no namespace at all (no NAMESPACE metadata and a "
         "dot-less DNS domain): identity_binding binds the namespace only when ConfigNamespace is non-empty; such a proxy is treated as namespace \"\"",
         "proxy.Metadata.ClusterID is client-claimed: RBAC is evaluated in the claimed (configured) cluster and kubernetes:// lookups fall back to the "
@@ -91,6 +130,7 @@ def run(ctx):
     ]
     ctx.trusted.append("pilot/pkg/xds/zz_verif_c11.go (verif-tagged accessors for initProxyMetadata, authenticate, authorize, checkConnectionIdentity)")
     ctx.trusted.append("pilot/pkg/model/zz_verif_c11.go (verif-tagged accessor for mergeGateways)")
+    ctx.trusted.append("pilot/pkg/credentials/kube/zz_verif_c11.go (verif-tagged clock for the authorization cache: ages every cached verdict)")
     ctx.trusted.append("pilot/test/xds FakeDiscoveryServer and the harness' fake gRPC server streams standing in for the gRPC transport")
     ctx.trusted.append("client-go fake clientset / istio kube.NewFakeClient informers standing in for the Kubernetes API server")
     mods = [m for m in THEOREMS if os.path.exists(os.path.join(os.path.dirname(os.path.dirname(os.path.abspath(__file__))),
@@ -98,8 +138,11 @@ def run(ctx):
     ctx.lean_prove(mods)
     if not ctx.build_drv():
         return
-    if not ctx.go_build():
+    if not _go_build_retry(ctx):
         return
+    # delta debugging of a 50-op sds case costs one process pair per round: bound it (the oracle searches all cases anyway)
+    _shrink = ctx.shrink
+    ctx.shrink = lambda stream, case_lines, max_rounds=200: _shrink(stream, case_lines, 40)
     ctx.diff_stream("auth", ctx.n(4000, 60000), oracle=oracle)
     ctx.diff_stream("stream", ctx.n(300, 4000), oracle=oracle)
     ctx.diff_stream("parse", ctx.n(3000, 60000), oracle=oracle)
@@ -124,6 +167,11 @@ def run(ctx):
                 continue
             verdicts = ctx.read_lines(out)
             ctx.count("oracle.%s.cases" % stream, len(verdicts))
+            if os.path.exists(out + ".stats"):
+                for l in ctx.read_lines(out + ".stats"):
+                    k, _, v = l.partition(" ")
+                    if v.isdigit():
+                        ctx.count("outcome.%s.%s" % (stream, k), int(v))
             for i, v in enumerate(verdicts):
                 if v.startswith("FAIL"):
                     clause = v.split()[1]
@@ -163,26 +211,30 @@ MANIFEST = {
                    "SecretGen.Generate (identity check -> sdsNeedsPush -> parseResources -> filterAuthorizedResources -> incremental filter -> "
                    "cache.Get -> generate -> cache.Add), ParseResourceName, SecretResource.Key, the kube credential lookups, the multicluster "
                    "aggregate and the VerifiedCertificateReferences computation of mergeGateways: identity_binding (accepted => VerifiedIdentity is "
-                   "a presented credential proving the claimed service account and - whenever the proxy claims a namespace - that namespace), "
+                   "a presented credential proving - whenever claimed - the service account and the namespace), "
                    "sds_release_sound (private key returned => kubernetes:// in the verified namespace and authorised, or kubernetes-gateway:// "
                    "with the exact requested name verified; unverified proxy gets nothing), refs_sound / gateway_release_bound (a verified "
-                   "reference exists only for the verified identity a Gateway expects and names its own namespace or is granted), "
+                   "reference exists only for the verified identity a Gateway expects and names its own namespace or is granted; for ListenerSet children the "
+                   "ListenerSet's namespace, under the AllowedListeners assumption), authorize_bounded_staleness (a cached RBAC verdict is never older than its TTL), "
                    "parse_namespace_binding, key_injective and sds_noninterference (over every interleaved request history on a shared cache the "
                    "answer equals the cache-free specification). The model is tied to /repo on every run by a line-by-line differential against "
                    "the real functions, including real ADS and delta streams through DiscoveryServer.Stream/StreamDeltas."),
     "level_note": ("Trusted: Lean kernel + {propext, Classical.choice, Quot.sound}; the hand-written model (tied by differential testing: streams auth, "
-                   "stream, parse, refs, sds on the real code, ~10900 cases quick); the verif-tagged accessor files pilot/pkg/xds/zz_verif_c11.go and "
+                   "stream, parse, refs, sds on the real code, ~10900 cases quick; the stream cases keep the xDS stream alive over a second request and a full push); the verif-tagged accessor files pilot/pkg/xds/zz_verif_c11.go and "
                    "pilot/pkg/model/zz_verif_c11.go; client-go fakes and fake gRPC streams. Caveats: (1) a client that claims no namespace at all "
                    "(no NAMESPACE metadata, dot-less DNS domain) is accepted with any parsable credential and treated as namespace \"\" - the "
                    "namespace half of identity_binding is conditional on a non-empty ConfigNamespace (its VerifiedIdentity, and hence SDS, is "
-                   "still the credential's); (2) an unauthenticated (plaintext, nil identities) stream skips the check and only secrets are "
+                   "still the credential's); likewise the service-account half is vacuous when the client omits SERVICE_ACCOUNT metadata; (2) an unauthenticated (plaintext, nil identities) stream skips the check and only secrets are "
                    "withheld from it; (3) proxy.Metadata.ClusterID is client-claimed: RBAC is evaluated by the claimed configured cluster and "
                    "kubernetes:// lookups fall back to the config cluster's namespace of the same name without that cluster's RBAC; (4) the trust "
                    "domain of the credential is never compared (trust_domain_not_compared): spiffe://other-td/ns/ns1/sa/x binds as ns1 if the "
                    "authenticators accept that trust domain; (5) NOT covered: the other release surfaces gated only by VerifiedIdentity != nil - "
                    "debug xDS (debuggen.go, other proxies' config for any verified non-system namespace), statusgen.go, ECDS wasm pull secrets "
-                   "(ecds.go), apigen.go - so the first clause (\"obtains configuration only as...\") is tied through ConfigNamespace and SDS only; "
-                   "(6) the per-user authorizationCache of CredentialsController is not modelled (constant RBAC outcome assumed). Kubernetes "
+                   "(ecds.go), apigen.go, WorkloadEntry auto-registration (autoregistration/controller.go:277) - so the first clause (\"obtains configuration only as...\") is tied through ConfigNamespace and SDS only; "
+                   "(6) RBAC verdicts are cached per user: a revoked authorisation may be honoured for < 300 s, a new one refused for < 60 s (modelled and "
+                   "proved as bounded staleness, tied with a clock hook); (7) ListenerSet children name secrets of their own namespace for the parent "
+                   "Gateway's proxies without a grant - sound only under the AllowedListeners handshake of the conversion (predicate tied, emission "
+                   "wiring and hand-written configs with internal annotations assumed). Kubernetes "
                    "RBAC is an abstract authz function checked through a fake SubjectAccessReview authoriser (exact attributes, API-error mode); "
                    "ReferenceGrant evaluation is driven for real (gateway-api objects -> ReferenceGrantsCollection -> SecretAllowed) and modelled "
                    "(grantEval), gateway-to-proxy attachment is an input; TLS authentication that "
